@@ -12,6 +12,7 @@ refactorings.  Nothing of cirbo is imported or run.
 
 from __future__ import annotations
 
+import os
 import random
 
 from .core import AnalysisError, Checker
@@ -20,7 +21,7 @@ from .eval_fold import real_model
 from .interp import InterpRaise
 from .rewrites import FakeGate
 
-TYPES2 = ['AND', 'OR', 'XOR', 'NAND', 'GT', 'LEQ', 'LIFF', 'RNOT', 'NXOR']
+TYPES2 = ['AND', 'OR', 'XOR', 'NAND', 'NOR', 'NXOR', 'GT', 'LT', 'GEQ', 'LEQ', 'LIFF', 'RIFF', 'LNOT', 'RNOT']
 TYPES1 = ['NOT', 'IFF']
 
 
@@ -76,8 +77,10 @@ def gen_op(rnd: random.Random, M, c, counter):
         t = rnd.choice(TYPES2 + TYPES1 + ['AND3', 'ALWAYS_TRUE', 'ALWAYS_FALSE'])
         ops = tuple(some(2)) if t in TYPES2 else tuple(some(1)) if t in TYPES1 else tuple(some(3)) if t == 'AND3' else tuple(some(rnd.choice((0, 1, 2))))   # constants may carry operands
         t = 'AND' if t == 'AND3' else t
-        lab = rnd.choice(labels) if (bad and labels) else fresh()
-        if bad and rnd.random() < 0.5:
+        # (the two kinds of wrong argument are drawn apart: each check of the call must be the one that refuses)
+        which = rnd.random()
+        lab = rnd.choice(labels) if (bad and labels and which < 0.5) else fresh()
+        if bad and which >= 0.4:
             ops = ops[:-1] + ('missing',) if ops else ('missing',)
         if kind == 'emplace':
             return 'emplace_gate', (lab, M.types[t], ops), {}, f'emplace_gate({lab!r}, {t}, {ops})'
@@ -145,7 +148,21 @@ def gen_op(rnd: random.Random, M, c, counter):
         if bad:
             tc = tc + some(1)
         name = '' if rnd.random() < 0.3 else k
-        return 'connect_circuit', (other, tc, oc), {'right_connect': right, 'name': name, 'add_prefix': bool(name) or True}, f'connect_circuit(<XOR-like block>, {tc}, {oc}, right_connect={right}, name={name!r})'
+        via = rnd.random()
+        if via < 0.5:
+            return 'connect_circuit', (other, tc, oc), {'right_connect': right, 'name': name, 'add_prefix': bool(name) or True}, f'connect_circuit(<XOR-like block>, {tc}, {oc}, right_connect={right}, name={name!r})'
+        # the documented wrappers (fresh name: without one the attached labels x, y, z, w would collide on a second call)
+        if via < 0.6:
+            return 'add_circuit', (other,), {'name': k}, f'add_circuit(<XOR-like block>, name={k!r})'
+        if via < 0.7:
+            return 'connect_inputs', (other,), {'name': k}, f'connect_inputs(<XOR-like block>, name={k!r})'
+        if via < 0.8:
+            tc2 = some(2)
+            return 'connect_left', (other, tc2), {'name': k}, f'connect_left(<XOR-like block>, {tc2}, name={k!r})'
+        if via < 0.9:
+            oc2 = rnd.sample(['x', 'y', 'z', 'w'], min(len(inputs), 2)) + (['w'] if bad else [])
+            return 'connect_right', (other, oc2), {'name': k}, f'connect_right(<XOR-like block>, {oc2}, name={k!r})'
+        return 'extend_circuit', (other,), {'right_connect': right, 'name': k}, f'extend_circuit(<XOR-like block>, right_connect={right}, name={k!r})'
     if kind == 'into_bench':
         return 'into_bench', (), {}, 'into_bench()'
     if kind == 'copy':
@@ -295,6 +312,9 @@ def fold_histories(ck: Checker, R: str, only=None):
             rec = per_method.setdefault(name, {'calls': 0, 'returned': 0, 'problems': []})
             rec['calls'] += 1
             if err:
+                if name == 'into_bench' and before['inputs'] and not rec['problems']:
+                    # C14 names no error: a well-formed circuit with an input must be converted
+                    rec['problems'].append(f'into_bench raises {err} on a well-formed circuit with inputs after the history {" ; ".join(trail)} (start state {h % len(STARTS)})')
                 # a refused call: the history goes on from whatever state it left only if that state is still well formed
                 if problems(c):
                     break
@@ -312,6 +332,7 @@ def fold_histories(ck: Checker, R: str, only=None):
             continue
         ck.check(not rec['problems'], R, mod, mod.func(f'Circuit.{name}'), f'{name}: every call that returns leaves a well-formed circuit ({rec["returned"]} of {rec["calls"]} calls returned, inside {n_hist} seeded histories of <= {length} public mutations)',
                  '; '.join(rec['problems'][:2]), construct=f'Circuit.{name} inside histories of public mutations')
+    ck.add_coverage(M.interp)
     ck.notes['history_calls'] = n_calls
     ck.notes['history_calls_returned'] = n_ok
     ck.assume('histories of public mutations are folded for bounded length over small model circuits with seeded argument choices; a refused call is not required to leave the state untouched')
@@ -338,6 +359,12 @@ def fold_replace_cases(ck: Checker, R: str):
          ([('p', 'INPUT', ()), ('q', 'INPUT', ()), ('k', 'XOR', ('p', 'q')), ('n2', 'IFF', ('k',))], ('n2',)), {'x': 'p', 'c': 'q'}, {'g': 'n2'}, True),
         ('a circuit output inside the region that is not a mapped output', ('g', 'h'),
          ([('p', 'INPUT', ()), ('q', 'INPUT', ()), ('n1', 'XOR', ('p', 'q')), ('n2', 'OR', ('n1', 'p'))], ('n2',)), {'x': 'p', 'c': 'q'}, {'h': 'n2'}, True),
+        ('an inner gate of the region that a gate outside reads and that is not a mapped output', ('h', 'k'),
+         ([('p', 'INPUT', ()), ('q', 'INPUT', ()), ('n1', 'XOR', ('p', 'q')), ('n2', 'OR', ('n1', 'p'))], ('n2',)), {'x': 'p', 'c': 'q'}, {'h': 'n2'}, True),
+        ('a label that is both a boundary input and a mapped output', ('h', 'k'),
+         ([('p', 'INPUT', ()), ('q', 'INPUT', ()), ('n1', 'XOR', ('p', 'q')), ('n2', 'IFF', ('q',))], ('n1', 'n2')), {'x': 'p', 'c': 'q'}, {'g': 'n1', 'c': 'n2'}, True),
+        ('a replacement that closes a cycle through a gate outside the region', ('h', 'k'),
+         ([('p', 'INPUT', ()), ('q', 'INPUT', ()), ('r', 'INPUT', ()), ('n0', 'XOR', ('p', 'r')), ('n1', 'GEQ', ('n0', 'q'))], ('n1',)), {'x': 'p', 'h': 'q', 'c': 'r'}, {'g': 'n1'}, True),
         ('an unmapped input of the replacement', ('h',),
          ([('p', 'INPUT', ()), ('q', 'INPUT', ()), ('r', 'INPUT', ()), ('n1', 'XOR', ('p', 'q'))], ('n1',)), {'x': 'p', 'c': 'q'}, {'g': 'n1'}, True),
     ]
@@ -348,6 +375,8 @@ def fold_replace_cases(ck: Checker, R: str):
         tt0 = truth_table(c)
         sub0 = cm.snapshot(sub)
         _, err = M.call(c, 'replace_subcircuit', sub, dict(im), dict(om))
+        if os.environ.get('CIRBO_VERIF_DEBUG'):
+            print('DEBUG replace case', desc, '->', err, problems(c)[:1], cm.snapshot(c)['gates'] if not err else '')
         if refuse:
             ok = bool(err)
             why = 'the call returned normally' if not err else ''
@@ -358,5 +387,6 @@ def fold_replace_cases(ck: Checker, R: str):
             tt1 = None if err or pr else truth_table(c)
             ok = not err and not pr and tt1 is not None and tt1[1] == tt0[1] and len(tt1[0]) == len(tt0[0]) and cm.snapshot(sub) == sub0
             why = err or (pr[0] if pr else ('the replacement circuit was modified' if cm.snapshot(sub) != sub0 else f'outputs compute {tt1[1] if tt1 else None} instead of {tt0[1]}'))
+        ck.add_coverage(M.interp)
         ck.check(ok, R, mod, fn, f'replace_subcircuit with {desc}: ' + ('refused, or still a well-formed circuit with the same truth table' if refuse else 'well-formed circuit, same truth table, replacement untouched'), why,
                  construct=f'replace_subcircuit: {desc}')
